@@ -1854,6 +1854,56 @@ def _decorator_callables(tree):
                     ast.fix_missing_locations(k.value)
 
 
+def _pure_test(e):
+    if isinstance(e, ast.Compare):
+        return _pure(e.left) and all(_pure(c) for c in e.comparators)
+    if isinstance(e, ast.BoolOp):
+        return all(_pure_test(v) or _pure(v) for v in e.values)
+    if isinstance(e, ast.UnaryOp) and isinstance(e.op, ast.Not):
+        return _pure_test(e.operand) or _pure(e.operand)
+    return False
+
+
+def _named_tests(tree):
+    """``flag = <comparison>`` read once, by the test of the ``if`` that
+    follows it directly, is that comparison written into the test (a
+    condition given a name for the reader's sake)."""
+    for fn in ast.walk(tree):
+        if not isinstance(fn, (ast.FunctionDef, ast.AsyncFunctionDef)):
+            continue
+        uses = {}
+        for x in ast.walk(fn):
+            if isinstance(x, ast.Name):
+                u = uses.setdefault(x.id, [0, 0])
+                u[0 if isinstance(x.ctx, ast.Store) else 1] += 1
+        for node in ast.walk(fn):
+            for fld in ('body', 'orelse', 'finalbody'):
+                blk = getattr(node, fld, None)
+                if not (isinstance(blk, list) and len(blk) >= 2 and
+                        isinstance(blk[0], ast.stmt)):
+                    continue
+                i = 0
+                while i + 1 < len(blk):
+                    a, nx = blk[i], blk[i + 1]
+                    if isinstance(a, ast.Assign) and len(
+                            a.targets) == 1 and isinstance(
+                                a.targets[0], ast.Name) and isinstance(
+                                    a.value, (ast.Compare, ast.BoolOp)) \
+                            and isinstance(nx, ast.If) and uses.get(
+                                a.targets[0].id) == [1, 1] and _pure_test(
+                                    a.value):
+                        nm = a.targets[0].id
+                        hits = [x for x in ast.walk(nx.test) if isinstance(
+                            x, ast.Name) and x.id == nm]
+                        if len(hits) == 1:
+                            nx.test = _SubstNames(
+                                {nm: a.value}).visit(nx.test)
+                            ast.fix_missing_locations(nx.test)
+                            del blk[i]
+                            continue
+                    i += 1
+
+
 def normalise(tree):
     """Canonical statement shapes, so that rules see one spelling of
     equivalent control flow (positions are kept; nothing is executed):
@@ -1883,6 +1933,7 @@ def normalise(tree):
     _conditional_expressions(tree)
     _star_dict_calls(tree)
     _tuple_assigns(tree)
+    _named_tests(tree)
     _dead_constant_stores(tree)
     if FORWARD_SUBST:
         _single_use_next(tree)
